@@ -29,6 +29,17 @@ func init() {
 		},
 		Assumptions: []string{"integer arithmetic on symbolic values is mathematical (no overflow)", "version strings up to 8 bytes"},
 	}
+	properties["C18"] = &property{
+		ID: "C18", Level: "model_checking",
+		Harnesses: []harness{
+			{Name: "gsxC18FailurePolicy", Pkg: "checkers", Quick: map[string]int{"strlen": 16}, NoValidate: true, MustReach: []string{"policy says fail", "policy says continue"}},
+			{Name: "gsxC18FailOnTokens", Pkg: "checkers", Quick: map[string]int{"strlen": 16}, NoValidate: true, MustReach: []string{"unknown failOn value", "valid failOn value"}},
+			{Name: "gsxC18GroupFilter", Pkg: "checkers", Quick: map[string]int{"strlen": 32}, NoValidate: true, MustReach: []string{"plain group", "experimental group"}},
+			{Name: "gsxC18NoRules", Pkg: "checkers", Quick: map[string]int{"strlen": 8}, Replay: "none", MustReach: []string{"constructed"}},
+		},
+		Assumptions: []string{"filepath.Glob, os.ReadFile and ruleguard's Engine.{Load,Run,InferBuildContext}/NewEngine are replaced by nondeterministic models (fault schedule): Glob returns ErrBadPattern / 0 / 1 / 2 names, ReadFile fails or not, Load returns nil / an error wrapping *ruleguard.ImportError / another error and offers the groups to GroupFilter",
+			"2 patterns x <=2 files; failOn <= 2 tokens of <= 6 bytes; 1 group with <= 2 tags; <= 2 enable keys, 1 disable key"},
+	}
 	properties["C19"] = &property{
 		ID: "C19", Level: "model_checking",
 		Harnesses: []harness{
@@ -37,6 +48,9 @@ func init() {
 			{Name: "gsxC19CtorError", Pkg: "cmd/go-critic", Quick: map[string]int{}, MustReach: []string{"initCheckers returned"}},
 			{Name: "gsxC19CtorError", Pkg: "cmd/gocritic", Quick: map[string]int{}, MustReach: []string{"initCheckers returned"}},
 			{Name: "gsxC19AnalyzerPasses", Pkg: "checkers/analyzer", Quick: map[string]int{"strlen": 5}, MustReach: []string{"invalid configuration", "valid configuration"}},
+			// unknown failOn value / rule file pattern with no match: shared with C18
+			{Name: "gsxC18FailurePolicy", Pkg: "checkers", Quick: map[string]int{"strlen": 16}, NoValidate: true, MustReach: []string{"policy says fail", "policy says continue"}},
+			{Name: "gsxC18FailOnTokens", Pkg: "checkers", Quick: map[string]int{"strlen": 16}, NoValidate: true, MustReach: []string{"unknown failOn value", "valid failOn value"}},
 		},
 		Assumptions: []string{"package loading is modelled as succeeding with an empty package list (pkgload stub)", "version strings up to 6 bytes", "3 consecutive analyzer passes"},
 	}
